@@ -51,6 +51,9 @@ pub struct Case {
     pub cuts: Vec<usize>,
     pub quotas: Vec<usize>,
     pub writable_delays: Vec<u64>,
+    /// the origin keeps its connection open for 120 virtual seconds after its last byte (keep-alive origin):
+    /// the end of the exchange must not depend on the origin closing
+    pub origin_keeps_open: bool,
 }
 
 fn body_bytes(key: u64, n: usize) -> Vec<u8> {
@@ -206,7 +209,7 @@ pub async fn run_case(case: &Case) -> Out {
             prev = *c;
         }
     }
-    steps.push(SrcStep::Delay(TICK_US));
+    steps.push(SrcStep::Delay(if case.origin_keeps_open { 120_000_000 } else { TICK_US }));
     steps.push(SrcStep::Eof);
     // the origin's bytes are not position-coded: use a source that serves `ob`
     let origin_src = BytesSource { data: Bytes::from(ob), steps: steps.into(), wake: None };
@@ -357,6 +360,14 @@ fn judge(case: &Case, o: &Out) -> Vec<(String, String)> {
         bad.push((format!("{} client: {} response body differs from the origin's body ({})", vname, fr, bp), format!("got {} bytes, expected {}, first difference at {}", got_body.len(), expect_full.len(), off)));
     } else if eofs == 0 && !*eof_flag {
         bad.push(("body complete but end-of-stream never signalled to the client".into(), String::new()));
+    } else if case.origin_keeps_open && !*eof_flag && case.version != 1 {
+        // (HTTP/1.1 clients delimit the body themselves from the framing that is passed through: not judged)
+        // the origin's connection stayed open for 120 s after its last byte: the client must have been told about the
+        // end of the response long before that
+        let eof_at = o.client_sink.as_ref().and_then(|l| l.lock().unwrap().events.iter().find(|(_, e)| matches!(e, Ev::Eof)).map(|(t, _)| t.as_secs()));
+        if eof_at.map(|t| t >= 60).unwrap_or(false) {
+            bad.push(("end of the response signalled to the client only when the origin closed its connection (complete response, keep-alive origin)".into(), format!("end-of-stream at {} s", eof_at.unwrap_or(0))));
+        }
     }
     if let Some(l) = &o.client_sink {
         if l.lock().unwrap().spin_detected {
@@ -386,7 +397,7 @@ fn dechunk(mut b: &[u8]) -> Option<Vec<u8>> {
 pub fn case_json(c: &Case) -> Value {
     json!({"key": c.key, "client_version": c.version, "method": c.method, "request_content_length": c.req_body, "request_stream_body": c.req_stream_body,
         "origin": {"interim": c.origin.interim, "status": c.origin.status, "body_len": c.origin.body_len, "framing": format!("{:?}", c.origin.framing), "extra_after": c.origin.extra_after, "hop_headers": c.origin.hop_headers},
-        "cuts": c.cuts, "client_quotas": c.quotas.iter().map(|q| if *q == usize::MAX { -1 } else { *q as i64 }).collect::<Vec<_>>(), "writable_delays_us": c.writable_delays})
+        "origin_keeps_connection_open": c.origin_keeps_open, "cuts": c.cuts, "client_quotas": c.quotas.iter().map(|q| if *q == usize::MAX { -1 } else { *q as i64 }).collect::<Vec<_>>(), "writable_delays_us": c.writable_delays})
 }
 
 pub fn gen_case(seed: u64, idx: u64) -> Case {
@@ -414,7 +425,8 @@ pub fn gen_case(seed: u64, idx: u64) -> Case {
         ("POST", 1) | ("PUT", 1) if version != 1 => (None, *r.pick(&[4usize, 900])),
         _ => (None, 0),
     };
-    let mut c = Case { key: r.next(), version, method, req_body, req_stream_body, origin, cuts: vec![], quotas: vec![], writable_delays: vec![] };
+    let keeps_open = !matches!(origin.framing, Framing::CloseDelimited) && r.chance(1, 2);
+    let mut c = Case { key: r.next(), version, method, req_body, req_stream_body, origin, cuts: vec![], quotas: vec![], writable_delays: vec![], origin_keeps_open: keeps_open };
     let len = origin_bytes(&c).len();
     let k = r.below(4);
     c.cuts = (0..k).map(|_| r.range(1, len.max(2) as u64 - 1) as usize).collect();
